@@ -31,6 +31,12 @@ func buildArmedHist(c *core.Ctx, idx int) *armedHist {
 	ah.idx = idx
 	ah.name = "random"
 	n := r.Range(3, 25)
+	if idx%5 == 4 {
+		// a catalog that is a two-level tree: the catalog record of a root
+		// move then lives in a catalog leaf, not in the catalog root
+		h.MaxTables = r.Range(8, 12)
+		n = r.Range(25, 45)
+	}
 	for i := 0; i < n; i++ {
 		ah.stmts = append(ah.stmts, h.Next())
 	}
@@ -43,6 +49,9 @@ func buildArmedHist(c *core.Ctx, idx int) *armedHist {
 		return true
 	}
 	shape := r.Intn(8)
+	if idx%5 == 4 && r.Bool() {
+		shape = 0
+	}
 	var armed *proto.Stmt
 	switch shape {
 	case 6:
@@ -69,13 +78,21 @@ func buildArmedHist(c *core.Ctx, idx int) *armedHist {
 	case 0, 1:
 		// multi-row INSERT crossing the first split of a fresh table: the
 		// root moves in mid-batch (catalog record inside the batch)
+		if len(h.DB.Tables) >= h.MaxTables {
+			h.MaxTables = len(h.DB.Tables) + 1
+		}
 		ct := h.CreateTable()
 		push(ct)
+		if len(h.DB.Tables) >= 8 {
+			ah.shape = "insert-root-move-two-level-catalog"
+		}
 		t := h.DB.Table(ct.Table)
 		pre := r.Range(4, 8)
 		push(h.Insert(t, pre))
 		armed = h.Insert(t, r.Range(9-pre, 9-pre+5))
-		ah.shape = "insert-root-move"
+		if ah.shape == "" {
+			ah.shape = "insert-root-move"
+		}
 	case 2:
 		t := pickUsable(h, r)
 		armed = h.Insert(t, r.Range(2, 14))
@@ -147,7 +164,7 @@ func checkC03(c *core.Ctx) []core.Floor {
 		runArmedHist(c, drv, buildArmedHist(c, i))
 	})
 	return []core.Floor{
-		{Key: "images_verified", Min: 1000}, {Key: "armed_insert-root-move", Min: 10}, {Key: "armed_insert-bulk", Min: 10}, {Key: "log_batches_over_16KiB", Min: 10}, {Key: "armed_update", Min: 10}, {Key: "armed_delete", Min: 10},
+		{Key: "images_verified", Min: 1000}, {Key: "armed_insert-root-move", Min: 10}, {Key: "armed_insert-bulk", Min: 10}, {Key: "armed_insert-root-move-two-level-catalog", Min: 5}, {Key: "log_batches_over_16KiB", Min: 10}, {Key: "armed_update", Min: 10}, {Key: "armed_delete", Min: 10},
 		{Key: "images_insert_sync_f", Min: 1}, {Key: "images_update_sync_f", Min: 1}, {Key: "images_delete_sync_f", Min: 1},
 		{Key: "images_insert_len_w", Min: 1}, {Key: "images_update_len_w", Min: 1}, {Key: "images_delete_len_w", Min: 1},
 		{Key: "continuations_ok", Min: 500},
